@@ -170,6 +170,34 @@ def check_cfg(ctx):
             ctx.holds('R-CFG', '-', label + ' takes every achievable value in a compared configuration', sorted(files_)[:4])
     ctx.floor('CPU feature switches found in the sources', len(seen), 3)
     ctx.floor('cfg predicates over CPU features', n_pred, 3)
+    # every cargo feature named in a cfg predicate is one that Cargo.toml declares (a misspelt name silently disables the code it guards)
+    declared = set()
+    try:
+        toml = open(os.path.join(REPO, 'Cargo.toml'), encoding='utf8').read()
+    except OSError:
+        toml = ''
+    sect = None
+    for ln in toml.split('\n'):
+        m = re.match(r'^\s*\[([^\]]+)\]', ln)
+        if m:
+            sect = m.group(1).strip()
+            continue
+        m = re.match(r'^\s*([A-Za-z0-9_\-]+)\s*=', ln)
+        if m and sect in ('features', 'dependencies', 'dev-dependencies') or (m and sect and sect.startswith('target.') and sect.endswith('dependencies')):
+            declared.add(m.group(1))
+    used = {}
+    for root, dirs, fs in os.walk(os.path.join(REPO, 'src')):
+        for f in fs:
+            if f.endswith('.rs'):
+                txt = open(os.path.join(root, f), encoding='utf8', errors='replace').read()
+                for m in re.finditer(r'\bfeature\s*=\s*"([^"]+)"', txt):
+                    used.setdefault(m.group(1), set()).add(os.path.relpath(os.path.join(root, f), REPO))
+    for feat, files_ in sorted(used.items()):
+        if feat in declared:
+            ctx.holds('R-CFG', '-', 'cargo feature "%s" used in cfg is declared' % feat)
+        else:
+            ctx.violation('R-CFG', '-', 'cargo feature "%s"' % feat, {'problem': 'the sources test cfg(feature = "%s") (%s) but Cargo.toml declares no such feature: the guarded code can never be enabled' % (feat, sorted(files_)[:3])})
+    ctx.floor('cargo features used in cfg predicates', len(used), 8)
     ctx.floor('guarded backend items parsed', sum(len(v) for v in per_file.values()), 30)
 
 
